@@ -139,3 +139,82 @@ Section Face3.
     intros H1 H2 H3 H4 Heq e. rewrite (face_pieces_global k1 a1 H1 H2), (face_pieces_global k2 a2 H3 H4). now rewrite Heq.
   Qed.
 End Face3.
+
+(* ------------------------------------------------------------------ quadrilateral faces (hexahedra) *)
+Require Import Proofs.C11_EquivProofs.
+
+Lemma isort4_swap24 x p n r : isort [x; p; n; r] = isort [x; r; n; p].
+Proof.
+  apply isort_of_perm. apply perm_skip.
+  eapply perm_trans; [apply perm_swap|]. eapply perm_trans; [apply perm_skip, perm_swap|]. apply perm_swap.
+Qed.
+
+(* the pieces are invariant under rotation and reversal of the cyclic vertex tuple *)
+Lemma quad_pieces_dihedral (M : nat -> nat -> nat) n : (forall a b, M a b = M b a) ->
+  forall q q', dihedral q q' ->
+  forall e, In e (quad_pieces (nth 0 q' 0) (nth 1 q' 0) (nth 2 q' 0) (nth 3 q' 0)
+                    (M (nth 0 q' 0) (nth 1 q' 0)) (M (nth 1 q' 0) (nth 2 q' 0)) (M (nth 2 q' 0) (nth 3 q' 0)) (M (nth 3 q' 0) (nth 0 q' 0)) n)
+            <-> In e (quad_pieces (nth 0 q 0) (nth 1 q 0) (nth 2 q 0) (nth 3 q 0)
+                    (M (nth 0 q 0) (nth 1 q 0)) (M (nth 1 q 0) (nth 2 q 0)) (M (nth 2 q 0) (nth 3 q 0)) (M (nth 3 q 0) (nth 0 q 0)) n).
+Proof.
+  intros Hs q q' Hd e. destruct q as [|a [|b [|c [|d [|z q]]]]]; simpl in Hd; try tauto.
+  destruct Hd as [<-|[<-|[<-|[<-|[<-|[<-|[<-|[<-|[]]]]]]]]]; cbn [nth];
+    rewrite ?(Hs b a), ?(Hs c b), ?(Hs d c), ?(Hs a d); unfold quad_pieces; cbn [In];
+    rewrite ?(isort4_swap24 a (M d a) n (M a b)), ?(isort4_swap24 b (M a b) n (M b c)),
+            ?(isort4_swap24 c (M b c) n (M c d)), ?(isort4_swap24 d (M c d) n (M d a)); tauto.
+Qed.
+
+Section Face4.
+  Variables (cells rf re : list (list nat)) (nn : nat).
+  Hypothesis Hfe : qface_edges_okb nn rf re = true.
+  Hypothesis Hcells : Forall (fun c => NoDup c /\ length c = nn) cells.
+  (* conformity of the hexahedral mesh (the hypothesis of C11_f2e_numbers_mesh_edges_hex): every cell lists the vertices of each of
+     its faces in the cyclic order of the stored (unsorted) facet column, up to rotation / reversal *)
+  Hypothesis Hconf : forall s e, s < length rf -> e < length cells ->
+    dihedral (nth (t2f_at cells rf s e) (entities false cells rf) []) (slotv (nth s rf []) (nth e cells [])).
+  Let tb := c11_tables3 cells rf re.
+  Variables oE oF : nat.
+  Let M (a b : nat) : nat := oE + lidx (isort [a; b]) (tb_edges tb).
+
+  Theorem qface_pieces_global k a : k < length cells -> a < length rf ->
+    let f := nth a (cf (cell_ctx tb k)) 0 in
+    forall e, In e (resolved_qface_pieces rf re oE oF (cell_ctx tb k) a)
+              <-> In e (face_trace4 (tb_edges tb) oE oF f (nth f (entities false cells rf) [])).
+  Proof.
+    intros Hk Ha f e.
+    unfold qface_edges_okb in Hfe. rewrite forallb_forall in Hfe. specialize (Hfe (nth a rf []) (nth_In _ _ Ha)).
+    destruct (nth a rf []) as [|i0 [|i1 [|i2 [|i3 [|]]]]] eqn:Elf; try discriminate.
+    rewrite !andb_true_iff, !Nat.ltb_lt in Hfe.
+    destruct Hfe as [[[[[[[[Hnd4 B0] B1] B2] B3] S01] S12] S23] S30].
+    apply nodup_nref_spec in Hnd4.
+    assert (Hne : forall i j, In (NV i) [NV i0; NV i1; NV i2; NV i3] -> In (NV j) [NV i0; NV i1; NV i2; NV i3] -> True) by auto.
+    assert (N01 : i0 <> i1 /\ i1 <> i2 /\ i2 <> i3 /\ i3 <> i0).
+    { inversion Hnd4 as [|? ? H0 Hr]; subst. inversion Hr as [|? ? H1 Hr2]; subst. inversion Hr2 as [|? ? H2 Hr3]; subst.
+      simpl in H0, H1, H2. repeat split; intros E; subst; intuition. }
+    destruct N01 as [N01 [N12 [N23 N30]]].
+    assert (Ef : f = t2f_at cells rf a k).
+    { unfold f, cell_ctx. cbn [cf]. unfold tb, c11_tables3. cbn [tb_t2f]. apply c11_entry; assumption. }
+    set (q' := slotv [i0; i1; i2; i3] (nth k cells [])).
+    assert (EL : resolved_qface_pieces rf re oE oF (cell_ctx tb k) a
+                 = quad_pieces (nth 0 q' 0) (nth 1 q' 0) (nth 2 q' 0) (nth 3 q' 0)
+                     (M (nth 0 q' 0) (nth 1 q' 0)) (M (nth 1 q' 0) (nth 2 q' 0)) (M (nth 2 q' 0) (nth 3 q' 0)) (M (nth 3 q' 0) (nth 0 q' 0))
+                     (oF + f)).
+    { unfold resolved_qface_pieces. rewrite Elf. cbn [nth]. change (cv (cell_ctx tb k)) with (nth k cells []).
+      unfold q', slotv. cbn [map nth]. fold f. unfold tb.
+      rewrite (edge_node cells rf re nn Hcells oE k i0 i1 Hk B0 B1 N01 S01), (edge_node cells rf re nn Hcells oE k i1 i2 Hk B1 B2 N12 S12),
+              (edge_node cells rf re nn Hcells oE k i2 i3 Hk B2 B3 N23 S23), (edge_node cells rf re nn Hcells oE k i3 i0 Hk B3 B0 N30 S30).
+      reflexivity. }
+    rewrite EL. unfold face_trace4. cbv zeta. fold M.
+    pose proof (Hconf a k Ha Hk) as Hd. rewrite Elf in Hd. fold q' in Hd. rewrite <- Ef in Hd.
+    apply (quad_pieces_dihedral M (oF + f)); [|exact Hd].
+    intros x y. unfold M. now rewrite (isort_swap x y).
+  Qed.
+
+  Theorem shared_qface_same_pieces k1 a1 k2 a2 :
+    k1 < length cells -> a1 < length rf -> k2 < length cells -> a2 < length rf ->
+    nth a1 (cf (cell_ctx tb k1)) 0 = nth a2 (cf (cell_ctx tb k2)) 0 ->
+    forall e, In e (resolved_qface_pieces rf re oE oF (cell_ctx tb k1) a1) <-> In e (resolved_qface_pieces rf re oE oF (cell_ctx tb k2) a2).
+  Proof.
+    intros H1 H2 H3 H4 Heq e. rewrite (qface_pieces_global k1 a1 H1 H2), (qface_pieces_global k2 a2 H3 H4). cbv zeta. now rewrite Heq.
+  Qed.
+End Face4.
